@@ -437,8 +437,15 @@ class Report(object):
         if not split:
             return
         keep, held = self.findings[:n0], []
+
+        def owner(inst):
+            # the split function itself or a function nested in it
+            for k in split:
+                if inst == k or inst.startswith(k + "."):
+                    return k
+            return None
         for fd in self.findings[n0:]:
-            (held if fd.instance in split else keep).append(fd)
+            (held if owner(fd.instance) else keep).append(fd)
         if not held:
             return
         self.findings = keep
@@ -456,7 +463,7 @@ class Report(object):
                        "delegates to helper function(s) %s that the "
                        "reference tree did not have and this rule does not "
                        "follow" % (len(held), ", ".join(inst), ", ".join(
-                           n for i in inst for n in split[i])))
+                           n for i in inst for n in split[owner(i)])))
 
     def guard(self, rules, fn, *args, **kw):
         """Run one rule function; an AnalysisError that is not a vanished
